@@ -396,7 +396,22 @@ func runScenario(seed int64, sc *scenario) ([]tr.Ev, []string) {
 		last = n
 	}
 	if stable < 2 {
-		rec.fail("no quiescence: %d receiver goroutines still open", atomic.LoadInt32(&st.open))
+		// the hooks did not report the end of every receiver goroutine.  No receiver can be blocked longer than the read timeout:
+		// if nothing has arrived for that long the run is quiescent all the same (what the receivers did is for the trace
+		// validation to judge); only packets still arriving make the run unusable
+		quiet := 0
+		for i := 0; i < 100 && quiet < 3; i++ {
+			n := atomic.LoadInt32(&st.nrecv)
+			time.Sleep(time.Duration(sc.ReadMs+60) * time.Millisecond)
+			if atomic.LoadInt32(&st.nrecv) == n {
+				quiet++
+			} else {
+				quiet = 0
+			}
+		}
+		if quiet < 3 {
+			rec.fail("no quiescence: packets keep arriving")
+		}
 	}
 	pend, tinv := 0, 0
 	seen := map[*tars.AdapterProxy]bool{}
